@@ -5,6 +5,7 @@ use serde::{Deserialize, Serialize};
 use serde_json::{json, Value};
 use std::net::IpAddr;
 
+use crate::vf::codec::{AmbientGuard, IpTweak};
 use crate::vf::dec_app::*;
 use crate::vf::engine::*;
 use crate::vf::gen::*;
@@ -26,10 +27,13 @@ pub struct Case {
     /// must not matter: the judged call is answered as if it were alone)
     #[serde(default)]
     pub pre: Vec<(RpcCall, u16)>,
+    /// IP / TCP header fields the responder is not documented to look at
+    #[serde(default)]
+    pub tweak: Option<IpTweak>,
 }
 
 pub fn case_strategy() -> impl Strategy<Value = Case> {
-    (scenario_quiet(Fam::Any), port(), port(), any::<bool>(), rpc_call(), prop_oneof![3 => Just(vec![]), 1 => proptest::collection::vec((rpc_call(), any::<u16>()), 1..3)]).prop_map(|(scn, sport, dport, tcp, call, pre)| Case { scn, sport, dport, tcp, call, pre })
+    (scenario_levels(Fam::Any), port(), port(), any::<bool>(), rpc_call(), prop_oneof![3 => Just(vec![]), 1 => proptest::collection::vec((rpc_call(), any::<u16>()), 1..3)], prop::option::weighted(0.25, crate::vf::props::c03::ip_tcp_tweak())).prop_map(|(scn, sport, dport, tcp, call, pre, tweak)| Case { scn, sport, dport, tcp, call, pre, tweak })
 }
 
 fn parse_uaddr(s: &str) -> Option<(IpAddr, u16)> {
@@ -127,6 +131,7 @@ pub fn check_reply(c: &Case, a: &[u8]) -> Check {
 pub fn check(c: &Case, st: &mut Stats) -> Check {
     Sut::reset();
     st.eval();
+    let _ambient = AmbientGuard::set(&c.tweak);
     let sut = Sut::new(&c.scn.cfg);
     let bytes = if c.tcp { c.call.record() } else { c.call.msg() };
     match super::c10::divergence(&bytes, !c.tcp) {
